@@ -11,6 +11,13 @@ TRUST = ("trusted base: rustc's MIR dump of the current tree, the mirsym interpr
 
 # id -> (level text, note, design ref)
 CLAIMED = {
+    "C26": ("All frame sets of <= K frames (quick 2, thorough 3) on one or two qubits with solver-chosen qubits and names, and one instruction from 22 templates "
+            "(pulses, captures, frame updates, SWAP-PHASES, FENCE, DELAY, RESET q) with solver-chosen operands: the real DefaultHandler::matching_frames against "
+            "reference used/blocked sets written from the Quil-T rules in the statement; defined-ness and disjointness.",
+            TRUST, "5/C26"),
+    "C27": ("One instruction from 43 templates (every classical, control, RF and CALL form incl. nested expressions and a DEFCAL body) with solver-chosen region names: "
+            "the real DefaultHandler::memory_accesses / Call::default_memory_accesses against a reference access table written from the statement.",
+            TRUST + "; extern signatures are built natively once and converted", "5/C27"),
     "C01": ("All token slices of length <= L (quick 4, thorough 6) with every token variant and payload a solver variable, through the real token-level parser "
             "(parse_instructions, parse_expression, parse_memory_reference, parse_frame_identifier): no path may reach a panic, todo!, unreachable or a failed "
             "overflow/bounds assertion. Candidates are rendered to text, checked to lex back to the same tokens (hook) and replayed through the public from_str.",
